@@ -1,6 +1,6 @@
 #!/bin/sh
 # run every claimed check (quick) on the current tree and summarise
-cd /verif
+cd "$(dirname "$0")/.."
 for p in $(python3 -c "import json;print(' '.join(c['property_id'] for c in json.load(open('MANIFEST.json'))['checks']))"); do
   ./check $p --tier ${TIER:-quick} 2>&1 | grep -E "VIOLATION|quick:|thorough:|KNOWN" | tail -3
 done
